@@ -103,17 +103,17 @@ def build(verbose=False):
         open(os.path.join(tmp, ".done"), "w").close()
         shutil.rmtree(pkgroot, ignore_errors=True)
         os.replace(tmp, pkgroot)
-        # keep the cache small: at most 4 package dirs, 16 module objects
-        pk_dirs = sorted(
-            (d for d in os.listdir(BUILD) if d.startswith("pkg-") and ".tmp" not in d),
-            key=lambda d: os.path.getmtime(os.path.join(BUILD, d, ".done"))
-            if os.path.exists(os.path.join(BUILD, d, ".done")) else 0,
-        )
-        for d in pk_dirs[:-4]:
-            shutil.rmtree(os.path.join(BUILD, d), ignore_errors=True)
+        # keep the cache small: at most 8 package dirs, 32 module objects; never remove a package dir that was
+        # used in the last three hours (a check running in parallel may still be importing from it lazily)
+        mt = lambda d: os.path.getmtime(os.path.join(BUILD, d, ".done")) if os.path.exists(os.path.join(BUILD, d, ".done")) else 0
+        pk_dirs = sorted((d for d in os.listdir(BUILD) if d.startswith("pkg-") and ".tmp" not in d), key=mt)
+        for d in pk_dirs[:-8]:
+            if time.time() - mt(d) > 3 * 3600:
+                shutil.rmtree(os.path.join(BUILD, d), ignore_errors=True)
         mods = sorted(os.listdir(modcache), key=lambda f: os.path.getmtime(os.path.join(modcache, f)))
-        for f in mods[:-16]:
-            os.unlink(os.path.join(modcache, f))
+        for f in mods[:-32]:
+            if time.time() - os.path.getmtime(os.path.join(modcache, f)) > 3 * 3600:
+                os.unlink(os.path.join(modcache, f))
     if verbose:
         print(f"[build] {pkgroot} in {time.time()-t0:.1f}s", file=sys.stderr)
     return pkgroot
@@ -127,6 +127,15 @@ def activate():
         del sys.modules[m]
     import cutadapt  # noqa
     assert os.path.dirname(os.path.dirname(cutadapt.__file__)) == root, cutadapt.__file__
+    # import everything now: nothing is imported lazily from the cache directory later
+    import importlib
+    for f in sorted(os.listdir(os.path.join(root, "cutadapt"))):
+        m = f.split(".")[0]
+        if m and m not in ("__init__", "__main__", "__pycache__"):
+            try:
+                importlib.import_module("cutadapt." + m)
+            except Exception:  # noqa  (a tree that does not import is reported by the check that uses it)
+                pass
     return root
 
 
